@@ -29,6 +29,7 @@ def check(c: Check):
     clause_j(c)
     clause_k(c)
     clause_l(c)
+    clause_m(c)
     clause_a(c)
     clause_b(c)
     clause_c(c)
@@ -977,3 +978,26 @@ def clause_l(c: Check):
             c.expect(ok, 'C09-l', '_extract_fragment/no-reference-whole-text-constant',
                      'without a reference the fragments are %s' % [(k, util.describe(v)) for k, v in shapes], ef.loc())
     c.floor('C09-l', 'paths of _extract_fragment', n, 3)
+
+
+# ---------------------------------------------------------------- m
+def clause_m(c: Check):
+    """the kind of quoting of a quoted token (soft: references substituted, hard: not) is read from the FIRST character
+    of its source text - the opening quote - in every property of Token that tells the kinds apart (the closing
+    character of a token made of adjacent fragments may belong to another kind of quote)."""
+    ix, fo = c.ix, c.fo
+    tok = ix.cls('exactly_lib.util.parse.token:Token')
+    n = 0
+    for name in ('quote_type', 'is_hard_quote_type'):
+        f = tok.methods.get(name)
+        c.require(f is not None, 'C09-m: Token.%s not found' % name)
+        for x in walk_own(f.node):
+            if isinstance(x, ast.Compare):
+                for side in [x.left] + list(x.comparators):
+                    if isinstance(side, ast.Subscript):
+                        n += 1
+                        idx = fo.fold(f.module, f, side.slice)
+                        c.expect(idx == 0 and not isinstance(idx, bool), 'C09-m', 'Token.%s/first-character' % name,
+                                 'the kind of quoting is read from character %s of the source text, not from the opening '
+                                 'quote' % unparse(side.slice), f.loc())
+    c.floor('C09-m', 'places where Token reads the quote character', n, 2)
